@@ -22,6 +22,45 @@ QUERIES = [
 ]
 
 
+def _e4_receiver_stores(prog, b):
+    """stores into the receiver's object on the abstract paths of `b` run from an unknown receiver; None if E4 cannot
+    explore it (path limit) or meets a call it does not know that is handed a `&mut` into the receiver"""
+    from .interp import PathLimit, Unsupported
+    from .tables import mk_interp, ref
+    RECV = ("OBJ", "recv")
+    found = []
+
+    def hook(interp, st, kind, info):
+        if kind == "store":
+            root = info["addr"][0]
+            if root == RECV or (isinstance(root, tuple) and root[:1] == ("G",) and "('in', 'recv')" in repr(root)):
+                found.append("%s (%s)" % (info["body"].short, info["body"].loc(info["src"])))
+    I = mk_interp(prog, event_hook=hook, max_states=20000)
+
+    def init(st):
+        st.write_leaf(RECV, (), ("term", ("in", "recv")))
+    args = [ref(RECV)] + [{(): ("term", ("in", "a%d" % i))} for i in range(1, b.arg_count)]
+    try:
+        outs = I.run(b, args, init)
+    except (PathLimit, Unsupported):
+        return None
+    if any(o.kind == "cut" for o in outs):
+        return None
+    # writes that bypass statement-level stores (axioms of mutating std functions, havoc by unknown callees): every explicit
+    # leaf of the receiver's object must still be what a read of the untouched receiver yields, or a variant refinement
+    from .interp import mkproj
+    for o in outs:
+        if o.kind != "return":
+            continue
+        for pth, l in o.state.mem.get(RECV, {}).items():
+            if not pth or pth[-1][0] == "$v" or l[0] in ("variant", "variants"):
+                continue
+            if l == ("term", mkproj(("in", "recv"), pth)):
+                continue
+            found.append("receiver field %s holds %s at return" % (repr(pth)[:60], repr(l)[:60]))
+    return sorted(set(found))
+
+
 def rule_query_purity(ctx):
     R = "R01.1"
     prog = ctx.prog
@@ -35,6 +74,12 @@ def rule_query_purity(ctx):
             continue
         n += 1
         w = eff.writes_through(b, 1)
+        if w:
+            # the context-insensitive summary gives up on a callee it cannot resolve (a closure parameter of a generic
+            # helper): decide on the abstract paths of the query instead - no store may reach the receiver's object
+            w2 = _e4_receiver_stores(prog, b)
+            if w2 is not None:
+                w = w2
         ctx.check(not w, R, "pure:" + q, "%s stores nothing through its receiver (interleaving it anywhere cannot change the outcome)" % q.split("::", 1)[1],
                   loc=body_loc(b), detail=[str(x) for x in w[:3]])
     ctx.floor(R, "queries", n, 18, "read-only queries")
